@@ -250,6 +250,11 @@ func ValidateAttribute(key string, values []string) error {
 	case isEqual(key, attrRequestAudiences):
 	case isEqual(key, attrRequestPresenter):
 	case hasPrefix(key, attrRequestClaims):
+		// a nested claim key with an empty name (claims[a][], claims[][a]) would generate a metadata matcher with
+		// an empty path segment, which Envoy rejects together with the whole listener
+		if strings.Contains(key, "[]") {
+			return fmt.Errorf("bad key (%s): empty claim name", key)
+		}
 		return validateMapKey(key)
 	case isEqual(key, attrDestIP):
 		return ValidateIPs(values)
